@@ -64,6 +64,10 @@ CHECKS = {
   "reference-model monitor: independent strict Type 1 reader (PFB de-framing, own PostScript tokenizer/evaluator, ciphers, charstring decoder) over all five output forms; byte-level clauses read off the output",
   "Every output of Font.Write (PFA, PFB, binary, no-eexec) and Font.WritePDF for generated fonts is read by a decoder that shares no code or constants with the library: strict PFB framing (80 01|02 len32le segments adding up exactly, 80 03 with nothing after), eexec with 55665/52845/22719 and exactly four lead bytes, charstrings with 4330 and lenIV lead bytes, numbers and commands from the Type 1 book's tables, the font program itself executed by the harness's PostScript evaluator. Glyph set, absolute outlines, integer widths, stems, number forms, the glyph selected at each code, FontName, FontInfo, FontMatrix and Private entries (Type 1 defaults for absent keys) are compared with the font value; binary ciphertext must start with a non-white-space byte and have a non-hex byte among the first four; WritePDF's two lengths must be exactly the clear-text (ending in `eexec` + one white-space byte) and ciphertext sizes.",
   "Trusted: harness/ref. A change made consistently to the library's reader and writer (invisible to every round-trip test) is visible here because the reference decoder does not share it."),
+ "C06": ("exploration", "DESIGN.md 11/C06 and section 10",
+  "reference-model monitor: model font -> independent Type 1 writer with independently drawn layout choices -> type1.Read, field-by-field comparison; writer and independent reader cross-checked on every case",
+  "Model fonts (glyph sets with .notdef, contours of moves, lines and curves with integer or rational coordinates, non-zero side bearings, sbw, stems, stem3, hint replacement, dotsection, flex after a move, a line or a curve, seac composites, info strings over all bytes, FontMatrix/Private present or absent, four creation-date layouts) are written by an independent writer in every container (PFA with any hex layout, binary eexec, PFB with any segment split, unencrypted), with lenIV in {0,1,2,3,4,5,8,16}, RD/ND/NP or -| |- |, StandardEncoding or an explicit array, general or h/v-specialised commands, shortest or 5-byte numbers, rationals as `p q div`, arbitrary command runs (including whole charstrings) factored into nested subroutines, access decorations and Adobe-style OtherSubrs code. type1.Read's font is compared with the model in glyph set, absolute outlines (exact for integers, 1e-9 for rationals), widths, stems, the 256 encoding entries, FontInfo, FontMatrix, Private values with defaults, and creation date. Each generated file is first read by the harness's independent reader, which must see the model (self-check of the writer).",
+  "Domain restrictions of DESIGN.md section 10: composites with asb = sbx(accent) = sbx(composite) and the base's width, only in StandardEncoding fonts; stem3 not mixed with other stems of that direction; stems not compared for glyphs with hint replacement and for composites."),
 }
 
 NOT_CLAIMED = {}
